@@ -167,6 +167,40 @@ type C01Case struct {
 	Plan  chunkio.Plan `json:"plan"`
 	// NilEmpty: empty required lists are handed to the serializers as nil slices
 	NilEmpty bool `json:"nil_empty,omitempty"`
+	// BigN > 0: the first two string / binary leaves of W (outside set elements and map keys) are grown
+	// to BigN and BigN+3 bytes of different text before use (kept out of the JSON), and the wire order
+	// is the declared one. Two values past the stream reader's 1 MiB threshold in one message.
+	BigN int `json:"big_n,omitempty"`
+}
+
+// growBinaries returns w with its first len(fills) string / binary leaves outside set elements and
+// map keys replaced by n+i bytes of fills[i], and how many it replaced.
+func growBinaries(w wm.W, n int, fills string, done *int) wm.W {
+	if *done >= len(fills) {
+		return w
+	}
+	out := w
+	switch w.K {
+	case wm.KBinary:
+		out = wm.Binary(bytes.Repeat([]byte{fills[*done]}, n+3**done))
+		*done++
+	case wm.KStruct:
+		out.Fields = append([]wm.Field{}, w.Fields...)
+		for i, f := range w.Fields {
+			out.Fields[i] = wm.Field{ID: f.ID, V: growBinaries(f.V, n, fills, done)}
+		}
+	case wm.KList:
+		out.Elems = append([]wm.W{}, w.Elems...)
+		for i, e := range w.Elems {
+			out.Elems[i] = growBinaries(e, n, fills, done)
+		}
+	case wm.KMap:
+		out.Pairs = append([]wm.Pair{}, w.Pairs...)
+		for i, pr := range w.Pairs {
+			out.Pairs[i] = wm.Pair{K: pr.K, V: growBinaries(pr.V, n, fills, done)}
+		}
+	}
+	return out
 }
 
 func encodeBoth(c Codec) (streamBytes, valueBytes []byte, streamErr, valueErr error) {
@@ -190,6 +224,11 @@ func checkC01(c C01Case) error {
 	t := findTarget(c.CaseHeader)
 	if t == nil {
 		return fmt.Errorf("target %s/%s not in this lab", c.ProgID, c.Target)
+	}
+	if c.BigN > 0 {
+		k := 0
+		c.W = growBinaries(c.W, c.BigN, "xy", &k)
+		c.WWire = c.W
 	}
 	kind := t.Kind()
 	want := t.Fill(c.W)
@@ -322,9 +361,18 @@ func C01(t *testing.T) {
 		w := tg.GenValue(rt, im.ValOpts{Depth: rapid.IntRange(1, 4).Draw(rt, "depth")}, "v")
 		c := C01Case{CaseHeader: header(tg), W: w, WWire: Shuffle(rt, w, "shuf"), Plan: chunkio.GenPlan(rt, "plan"), NilEmpty: rapid.Bool().Draw(rt, "nil_empty")}
 		filled := tg.Fill(w)
-		d := ev.Digest([]byte(tg.Prog.SchemaJSON), []byte(tg.Key), refcodec.Encode(refcodec.Canon(w)))
+		big := "big-strings:0"
+		if rapid.IntRange(0, 39).Draw(rt, "bigleaf") == 0 {
+			k := 0
+			growBinaries(w, 1, "xy", &k)
+			if k > 0 {
+				c.BigN, c.WWire = 1<<20+rapid.SampledFrom([]int{1, 7, 4096}).Draw(rt, "bigleaf_n"), wm.W{}
+				big = fmt.Sprintf("big-strings:%d", k)
+			}
+		}
+		d := ev.Digest([]byte(tg.Prog.SchemaJSON), []byte(tg.Key), refcodec.Encode(refcodec.Canon(w)), []byte(fmt.Sprint(c.BigN)))
 		nontriv := nontrivialValue(tg, w, filled)
-		ev.Case(d, nontriv, "unit:c01-values", "shape:"+tg.Class(), "opts:"+optsClass(tg.Prog.Opts), c.Plan.Class())
+		ev.Case(d, nontriv, "unit:c01-values", "shape:"+tg.Class(), "opts:"+optsClass(tg.Prog.Opts), c.Plan.Class(), big)
 		if nontriv {
 			ev.KeepSample("c01-values", d, func() interface{} {
 				return map[string]interface{}{"program": tg.Prog.Schema.Summary(), "type": tg.Key, "shape": tg.Class(), "value": wm.Render(w), "filled": wm.Render(filled)}
